@@ -30,6 +30,7 @@ import (
 	"net/http"
 	"net/http/httptest"
 	"os"
+	"sort"
 	"strings"
 	"time"
 
@@ -180,6 +181,32 @@ func newIngestor(cl bulk.StorageClient, maxDoc int) *bulk.Ingestor {
 	}, cl)
 }
 
+// swapClient lets consecutive bulks through ONE Ingestor (so that pooled processors are reused, as in production)
+// be captured separately.
+type swapClient struct{ cur bulk.StorageClient }
+
+func (s *swapClient) StoreDocuments(ctx context.Context, count int, docs, metas []byte) error {
+	return s.cur.StoreDocuments(ctx, count, docs, metas)
+}
+
+type sharedIngestor struct {
+	ing   *bulk.Ingestor
+	cl    *swapClient
+	bulks int // bulks served so far: 0 = the next one gets a new processor, >0 = a pooled one
+}
+
+var sharedIngestors = map[string]*sharedIngestor{}
+
+func getShared(key string, mk func(cl bulk.StorageClient) *bulk.Ingestor) *sharedIngestor {
+	if s, ok := sharedIngestors[key]; ok {
+		return s
+	}
+	cl := &swapClient{}
+	s := &sharedIngestor{ing: mk(cl), cl: cl}
+	sharedIngestors[key] = s
+	return s
+}
+
 // ---------------------------------------------------------------- one request through the real handler
 
 type reqCase struct {
@@ -190,15 +217,44 @@ type reqCase struct {
 	unclean bool
 	storeKO bool
 	body    []byte
+	// gzip only: the body is sent as several gzip members (cut points in the plain body), optionally followed by
+	// bytes that are not a gzip member.  The model sees the concatenated plain body; trailing bytes make the
+	// decoded stream end with an error instead of EOF (the reader's default multistream mode).
+	splits []int
+	trail  []byte
 }
 
+// streamUnclean: the byte stream the line reader sees ends with an error
+func (c reqCase) streamUnclean() bool { return c.unclean || (c.gz && len(c.trail) > 0) }
+
 func (c reqCase) line() string {
-	return fmt.Sprintf("body %d %s %d %s %s %s %s", c.B, vh.B(c.gz), c.chunk, vh.B(c.eager), vh.B(c.unclean), vh.B(c.storeKO), vh.Hex(c.body))
+	l := fmt.Sprintf("body %d %s %d %s %s %s %s", c.B, vh.B(c.gz), c.chunk, vh.B(c.eager), vh.B(c.unclean), vh.B(c.storeKO), vh.Hex(c.body))
+	if len(c.splits) > 0 || len(c.trail) > 0 {
+		l += " " + vh.JoinInts(c.splits) + " " + vh.Hex(c.trail)
+	}
+	return l
+}
+
+func (c reqCase) gzPayload() []byte {
+	var zb bytes.Buffer
+	prev := 0
+	cuts := append(append([]int(nil), c.splits...), len(c.body))
+	for _, cut := range cuts {
+		if cut < prev || cut > len(c.body) {
+			continue
+		}
+		zw := gzip.NewWriter(&zb)
+		zw.Write(c.body[prev:cut])
+		zw.Close()
+		prev = cut
+	}
+	zb.Write(c.trail)
+	return zb.Bytes()
 }
 
 func parseReqCase(l string) (reqCase, bool) {
 	f := strings.Fields(l)
-	if len(f) != 8 || f[0] != "body" {
+	if (len(f) != 8 && len(f) != 10) || f[0] != "body" {
 		return reqCase{}, false
 	}
 	var c reqCase
@@ -212,6 +268,18 @@ func parseReqCase(l string) (reqCase, bool) {
 			return c, false
 		}
 		c.body = b
+	}
+	if len(f) == 10 {
+		if f[8] != "-" {
+			for _, x := range strings.Split(f[8], ",") {
+				var v int
+				fmt.Sscanf(x, "%d", &v)
+				c.splits = append(c.splits, v)
+			}
+		}
+		if f[9] != "-" {
+			c.trail, _ = hex.DecodeString(f[9])
+		}
 	}
 	return c, true
 }
@@ -235,16 +303,13 @@ func bufSize(b int) int {
 func runRequest(c reqCase) (res reqResult) {
 	proxyapi.VerifResetReaderPool()
 	res.cap = &capture{failIt: c.storeKO}
-	ing := newIngestor(res.cap, c.B)
-	defer ing.Stop()
-	h := proxyapi.NewBulkHandler(ing, c.B)
+	sh := getShared("handler", func(cl bulk.StorageClient) *bulk.Ingestor { return newIngestor(cl, 1<<20) })
+	sh.cl.cur = res.cap
+	sh.bulks++
+	h := proxyapi.NewBulkHandler(sh.ing, c.B)
 	payload := c.body
 	if c.gz {
-		var zb bytes.Buffer
-		zw := gzip.NewWriter(&zb)
-		zw.Write(c.body)
-		zw.Close()
-		payload = zb.Bytes()
+		payload = c.gzPayload()
 	}
 	cr := &chunkReader{data: payload, chunk: c.chunk, eager: c.eager}
 	if c.unclean {
@@ -634,7 +699,7 @@ func addReadlineCases(ch *vh.Channel, r *vh.RNG, o vh.Opts) {
 
 func frameImpl(c reqCase) (string, [][]byte) {
 	cr := &chunkReader{data: c.body, chunk: c.chunk, eager: c.eager}
-	if c.unclean {
+	if c.streamUnclean() {
 		cr.fail = errStream
 	}
 	docs, err := proxyapi.VerifReadAllDocs(cr, c.B)
@@ -650,7 +715,7 @@ func frameImpl(c reqCase) (string, [][]byte) {
 }
 
 func frameReq(c reqCase) string {
-	return fmt.Sprintf("bulk.frame %d %s %s %s", bufSize(c.B), vh.B(c.eager), vh.B(!c.unclean), vh.Hex(c.body))
+	return fmt.Sprintf("bulk.frame %d %s %s %s", bufSize(c.B), vh.B(c.eager), vh.B(!c.streamUnclean()), vh.Hex(c.body))
 }
 
 func kindsTable(docs [][]byte) string {
@@ -671,7 +736,7 @@ func kindsTable(docs [][]byte) string {
 func procCase(ch *vh.Channel, c reqCase, tags ...string) reqResult {
 	_, docs := frameImpl(c)
 	res := runRequest(c)
-	req := fmt.Sprintf("bulk.proc %d %s %s %s %s %s", bufSize(c.B), vh.B(c.eager), vh.B(!c.unclean), vh.B(!c.storeKO), vh.Hex(c.body), kindsTable(docs))
+	req := fmt.Sprintf("bulk.proc %d %s %s %s %s %s", bufSize(c.B), vh.B(c.eager), vh.B(!c.streamUnclean()), vh.B(!c.storeKO), vh.Hex(c.body), kindsTable(docs))
 	var impl string
 	switch {
 	case res.panicked != "":
@@ -694,8 +759,10 @@ func procCase(ch *vh.Channel, c reqCase, tags ...string) reqResult {
 func ingestCase(ch *vh.Channel, c reqCase, req time.Time, tags ...string) {
 	_, docs := frameImpl(c)
 	cp := &capture{failIt: c.storeKO}
-	ing := newIngestor(cp, c.B)
-	defer ing.Stop()
+	sh := getShared("ingest", func(cl bulk.StorageClient) *bulk.Ingestor { return newIngestor(cl, 1<<20) })
+	sh.cl.cur = cp
+	sh.bulks++
+	ing := sh.ing
 	cr := &chunkReader{data: c.body, chunk: c.chunk, eager: c.eager}
 	if c.unclean {
 		cr.fail = errStream
@@ -811,26 +878,41 @@ func parseTimeCase(l string) (timeCase, bool) {
 
 // storeOne sends one document through Ingestor.ProcessDocuments with the given request time and returns the
 // MID of its meta.
-func storeOne(c timeCase) (mid uint64, ok bool) {
-	cp := &capture{}
-	mp, _ := mappingprovider.New("", mappingprovider.WithMapping(seq.Mapping{"k": seq.NewSingleType(seq.TokenizerTypeKeyword, "", 0)}))
-	ing := bulk.NewIngestor(bulk.IngestorConfig{
-		MaxInflightBulks: 1, AllowedTimeDrift: c.drift, FutureAllowedTimeDrift: c.fut, MappingProvider: mp,
-		MaxTokenSize: 1024, DocsZSTDCompressLevel: -1, MetasZSTDCompressLevel: -1, MaxDocumentSize: 1 << 20,
-	}, cp)
-	defer ing.Stop()
-	sent := false
-	n, err := ing.ProcessDocuments(context.Background(), c.req, func() ([]byte, error) {
-		if sent {
-			return nil, nil
-		}
-		sent = true
-		return []byte(c.doc), nil
+// storeOne sends one document through Ingestor.ProcessDocuments with the given request time and returns the MID of
+// its meta.  All cases of one drift configuration go through the same Ingestor, one bulk each, so that every bulk
+// after the first is served by a processor taken from the ingestor's pool; on a new Ingestor the document is sent
+// twice (new processor, then pooled processor) and both MIDs are returned.
+func storeOne(c timeCase) (mids []uint64, ok bool) {
+	key := fmt.Sprintf("time/%d/%d", int64(c.drift), int64(c.fut))
+	sh := getShared(key, func(cl bulk.StorageClient) *bulk.Ingestor {
+		mp, _ := mappingprovider.New("", mappingprovider.WithMapping(seq.Mapping{"k": seq.NewSingleType(seq.TokenizerTypeKeyword, "", 0)}))
+		return bulk.NewIngestor(bulk.IngestorConfig{
+			MaxInflightBulks: 1, AllowedTimeDrift: c.drift, FutureAllowedTimeDrift: c.fut, MappingProvider: mp,
+			MaxTokenSize: 1024, DocsZSTDCompressLevel: -1, MetasZSTDCompressLevel: -1, MaxDocumentSize: 1 << 20,
+		}, cl)
 	})
-	if err != nil || n != 1 || len(cp.metas) == 0 {
-		return 0, false
+	rounds := 1
+	if sh.bulks == 0 {
+		rounds = 2
 	}
-	return uint64(cp.metas[0].ID.MID), true
+	for ; rounds > 0; rounds-- {
+		cp := &capture{}
+		sh.cl.cur = cp
+		sh.bulks++
+		sent := false
+		n, err := sh.ing.ProcessDocuments(context.Background(), c.req, func() ([]byte, error) {
+			if sent {
+				return nil, nil
+			}
+			sent = true
+			return []byte(c.doc), nil
+		})
+		if err != nil || n != 1 || len(cp.metas) == 0 {
+			return nil, false
+		}
+		mids = append(mids, uint64(cp.metas[0].ID.MID))
+	}
+	return mids, true
 }
 
 func midOf(t time.Time) uint64 { return uint64(seq.TimeToMID(t)) }
@@ -855,6 +937,22 @@ func timeCases(r *vh.RNG, o vh.Opts) []timeCase {
 	for _, base := range []time.Duration{drift, -fut} {
 		for _, d := range []time.Duration{-time.Millisecond, -1, 0, 1, time.Millisecond} {
 			cs = append(cs, mkc(req.Add(-(base+d)), time.RFC3339Nano, "timestamp", drift, fut))
+		}
+	}
+	// asymmetric drift configurations (production defaults: 24 h past, 5 min future), every bulk through the same
+	// Ingestor: documents at +-(smaller drift +- 1ns), +-(between the two), +-(larger drift +- 1ns)
+	cfgs := [][2]time.Duration{{24 * time.Hour, 5 * time.Minute}, {5 * time.Minute, 24 * time.Hour}, {24 * time.Hour, 2 * time.Hour}, {time.Hour, time.Hour}}
+	for _, cf := range cfgs {
+		p, f := cf[0], cf[1]
+		var offs []time.Duration // request - document
+		for _, base := range []time.Duration{p, -f, f, -p} {
+			offs = append(offs, base-1, base, base+1)
+		}
+		offs = append(offs, (p+f)/2, -(p+f)/2, 0, time.Second, -time.Second)
+		for round := 0; round < 2; round++ { // twice: the second round is certainly served by pooled processors
+			for _, off := range offs {
+				cs = append(cs, mkc(req.Add(-off), time.RFC3339Nano, timeFieldNames[len(cs)%3], p, f))
+			}
 		}
 	}
 	// int64 edges and beyond, every field and layout
@@ -906,7 +1004,18 @@ func timeCases(r *vh.RNG, o vh.Opts) []timeCase {
 		} else {
 			t = req.Add(-off)
 		}
-		cs = append(cs, mkc(t, timeLayouts[li], timeFieldNames[r.Intn(3)], drift, fut))
+		cf := cfgs[r.Intn(len(cfgs))]
+		if r.Bool() { // offsets relative to this configuration's own limits
+			switch r.Intn(3) {
+			case 0:
+				t = req.Add(-time.Duration(r.U64() % uint64(cf[0]+time.Hour)))
+			case 1:
+				t = req.Add(time.Duration(r.U64() % uint64(cf[1]+time.Hour)))
+			default:
+				t = req.Add(-cf[0] + time.Duration(int64(r.Intn(2001))-1000)*time.Millisecond)
+			}
+		}
+		cs = append(cs, mkc(t, timeLayouts[li], timeFieldNames[r.Intn(3)], cf[0], cf[1]))
 	}
 	return cs
 }
@@ -917,19 +1026,26 @@ func runTimeCase(c timeCase, chMid *vh.Channel, orc *vh.Oracle, rep *vh.Report) 
 	if !decoded {
 		return
 	}
-	mid, ok := storeOne(c)
+	mids, ok := storeOne(c)
 	if !ok {
 		violate(rep, vh.Violation{Site: "proxy/bulk/ingestor.go:ProcessDocuments", Class: "valid-object-not-stored",
 			What: "a single valid object document was not stored: " + c.doc, Replay: []string{c.line()}})
 		return
 	}
+	mid := mids[len(mids)-1]
 	docS := "none"
 	if found {
 		docS = nsOf(docT).String()
 	}
 	reqNs := nsOf(c.req)
-	chMid.Add(fmt.Sprintf("bulk.mid %s %s %d %d", docS, reqNs, int64(c.drift), int64(c.fut)), fmt.Sprintf("ok %d", mid), found,
-		map[bool]string{true: "time-field-parsed", false: "no-time-field"}[found])
+	for i, m := range mids {
+		served := "pooled-processor"
+		if len(mids) == 2 && i == 0 {
+			served = "new-processor"
+		}
+		chMid.Add(fmt.Sprintf("bulk.mid %s %s %d %d", docS, reqNs, int64(c.drift), int64(c.fut)), fmt.Sprintf("ok %d", m), found,
+			map[bool]string{true: "time-field-parsed", false: "no-time-field"}[found], served)
+	}
 	// the rule, with exact integers, on the own time known to the generator (else the extracted one)
 	want := midOf(c.req)
 	cat := "receive-time:unparsed"
@@ -954,13 +1070,22 @@ func runTimeCase(c timeCase, chMid *vh.Channel, orc *vh.Oracle, rep *vh.Report) 
 			}
 		}
 	}
-	orc.Case(c.line(), found, cat)
+	orc.Case(c.line(), found, cat, fmt.Sprintf("drifts=%s/%s", c.drift, c.fut))
+	if len(mids) == 2 && mids[0] != want {
+		mid = mids[0]
+	}
 	if mid != want {
 		class := "wrong-id-time"
+		site := "proxy/bulk/processor.go:documentDelayed"
 		if cat == "receive-time:ahead-beyond-int64" {
 			class = "doc-time-more-than-292y-ahead"
 		}
-		violate(rep, vh.Violation{Site: "proxy/bulk/processor.go:documentDelayed", Class: class,
+		// is it only the processor taken from the pool that gets it wrong?
+		delete(sharedIngestors, fmt.Sprintf("time/%d/%d", int64(c.drift), int64(c.fut)))
+		if fresh, ok := storeOne(c); ok && fresh[0] == want {
+			site, class = "proxy/bulk/ingestor.go:getProcessor", "reused-processor-breaks-time-rule"
+		}
+		violate(rep, vh.Violation{Site: site, Class: class,
 			What:   fmt.Sprintf("%s: document %s received at %s (drift %s/%s) got MID %d, the rule gives %d", cat, c.doc, c.req.Format(time.RFC3339Nano), c.drift, c.fut, mid, want),
 			Replay: []string{c.line()}})
 	}
@@ -1043,7 +1168,7 @@ func checkProperty(g genBody, c reqCase, res reqResult, orc *vh.Oracle, rep *vh.
 			What: res.cap.bad, Replay: []string{c.line()}})
 		return
 	}
-	if !known || c.unclean || c.storeKO {
+	if !known || c.streamUnclean() || c.storeKO {
 		// any body: an error answer must not have stored anything (store errors aside)
 		if res.status != 200 && res.cap.calls > 0 && !c.storeKO {
 			violate(rep, vh.Violation{Site: "proxy/bulk/ingestor.go:ProcessDocuments", Class: "stored-although-rejected",
@@ -1342,8 +1467,23 @@ func main() {
 			wild := r.Chance(1, 2)
 			g := genRequest(r, B, now, wild)
 			c := reqCase{B: B, chunk: r.Intn(3 * B), eager: r.Bool(), body: g.body}
-			if r.Chance(1, 4) && bytes.HasSuffix(g.body, []byte("\n")) {
+			if r.Chance(1, 3) && bytes.HasSuffix(g.body, []byte("\n")) {
 				c.gz = true
+				if r.Bool() && len(g.body) > 4 { // several gzip members, cut at line ends or in the middle of a line
+					for k := 1 + r.Intn(3); k > 0; k-- {
+						cut := 1 + r.Intn(len(g.body)-1)
+						if r.Bool() {
+							if j := bytes.IndexByte(g.body[cut:], '\n'); j >= 0 {
+								cut += j + 1
+							}
+						}
+						c.splits = append(c.splits, cut)
+					}
+					sort.Ints(c.splits)
+				}
+				if r.Chance(1, 6) { // bytes after the last member that are not a gzip member
+					c.trail = [][]byte{[]byte("\n"), []byte("xyz"), []byte("not a gzip member at all"), {0, 0, 0, 0}}[r.Intn(4)]
+				}
 			}
 			if wild && !c.gz && r.Chance(1, 10) {
 				c.unclean = true
@@ -1352,6 +1492,12 @@ func main() {
 				c.storeKO = true
 			}
 			tags := []string{map[bool]string{true: "gzip", false: "plain"}[c.gz]}
+			if len(c.splits) > 0 {
+				tags = append(tags, fmt.Sprintf("gzip-members=%d", len(c.splits)+1))
+			}
+			if len(c.trail) > 0 {
+				tags = append(tags, "gzip-trailing-bytes")
+			}
 			res := procCase(chProc, c, tags...)
 			checkProperty(g, c, res, orcProp, rep)
 			if res.cap.calls == 1 && len(payloads) < 400 {
